@@ -1,6 +1,7 @@
 package balance
 
 import (
+	"fmt"
 	"math/big"
 
 	"github.com/nspcc-dev/neo-go/pkg/core/transaction"
@@ -120,6 +121,22 @@ func preclassOf(bal, amount *big.Int) string {
 	return "part"
 }
 
+// details: the free-form field of the Alphabet's operations. Mostly a short id, now and then empty, a transaction
+// hash, or long enough to come near (and past) the VM's 1024-byte notification limit — the operation then either
+// succeeds with both notifications or fails as a whole (seeded change C01-11: TransferX dropped above 900 bytes).
+func (e *env) details(def []byte) []byte {
+	if e.b.Rng.IntN(6) != 0 {
+		return def
+	}
+	n := runner.Pick(e.b.Rng, []int{0, 32, 255, 256, 600, 899, 900, 901, 930, 1100})
+	e.b.Hit(fmt.Sprintf("details-of-%d-bytes", n))
+	d := make([]byte, n)
+	for i := range d {
+		d[i] = byte(e.b.Rng.IntN(256))
+	}
+	return d
+}
+
 func (e *env) opMint(hostile bool) *op {
 	to := e.pickAddr()
 	// a deposit may name any address, a live lock account too: it stays a lock (seeded change C09-10: the credited
@@ -135,7 +152,7 @@ func (e *env) opMint(hostile bool) *op {
 	c := e.pickClass(8)
 	s, cn := e.classSigners(c)
 	o := &op{kind: "mint", amount: amt, to: to.BytesBE(), class: c, className: cn, signers: s, preclass: preclassOf(big.NewInt(1000), amt)}
-	o.p = e.w.Prepare(s, e.bal, "mint", to, amt, []byte{byte(e.b.Rng.IntN(256))})
+	o.p = e.w.Prepare(s, e.bal, "mint", to, amt, e.details([]byte{byte(e.b.Rng.IntN(256))}))
 	return o
 }
 
@@ -149,7 +166,7 @@ func (e *env) opBurn(hostile bool) *op {
 	c := e.pickClass(8)
 	s, cn := e.classSigners(c)
 	o := &op{kind: "burn", amount: amt, from: from.BytesBE(), class: c, className: cn, signers: s, preclass: preclassOf(bal, amt)}
-	o.p = e.w.Prepare(s, e.bal, "burn", from, amt, []byte{2})
+	o.p = e.w.Prepare(s, e.bal, "burn", from, amt, e.details([]byte{2}))
 	return o
 }
 
@@ -172,7 +189,7 @@ func (e *env) opTransferX(hostile bool) *op {
 	c := e.pickClass(8)
 	s, cn := e.classSigners(c)
 	o := &op{kind: "transferX", amount: amt, from: from.BytesBE(), to: to.BytesBE(), class: c, className: cn, signers: s, preclass: preclassOf(bal, amt)}
-	o.p = e.w.Prepare(s, e.bal, "transferX", from, to, amt, []byte{0x77})
+	o.p = e.w.Prepare(s, e.bal, "transferX", from, to, amt, e.details([]byte{0x77}))
 	return o
 }
 
@@ -217,7 +234,7 @@ func (e *env) opLock(hostile bool) *op {
 	c := e.pickClass(8)
 	s, cn := e.classSigners(c)
 	o := &op{kind: "lock", amount: amt, from: from.BytesBE(), to: to.BytesBE(), class: c, className: cn, signers: s, until: until, preclass: preclassOf(bal, amt), onto: onto}
-	o.p = e.w.Prepare(s, e.bal, "lock", []byte{byte(e.lockCtr)}, from, to, amt, until)
+	o.p = e.w.Prepare(s, e.bal, "lock", e.details([]byte{byte(e.lockCtr)}), from, to, amt, until)
 	return o
 }
 
